@@ -90,6 +90,8 @@ StObj(i)  == TObj(i, {"ST"}, <<>>, <<>>, P(i), <<>>)
 ErObj(i)  == TObj(i, {"ER"}, <<>>, <<>>, P(i), <<>>)
 \* a SafeValue that is also a SafeFormatter calling back into the printer (exercises nested printers under an override)
 SVSF(i)   == TObj(i, {"SV", "SF"}, <<SSafeString(P(600 + i)), SPrint(<<TSafe(i + 2, TInt(i + 1, 5))>>)>>, <<>>, <<>>, <<>>)
+\* a SafeFormatter that emits numbers through the typed safe methods of the printer
+SFNum(i)  == TObj(i, {"SF"}, <<SSafeInt(i + 1, 12), SSafeString(<<58>>), SSafeUint(i + 2, 7), SSafeString(<<58>>), SSafeFloat(i + 3)>>, <<>>, <<>>, <<>>)
 SafeStr(i) == TSafe(i, TStr(i + 1, P(i + 1)))
 SafeInt(i) == TSafe(i, TInt(i + 1, 4 + i))
 Leaf(kind, i) == CASE kind = "ustr" -> UStr(i) [] kind = "uint" -> UInt(i) [] kind = "sv" -> SVObj(i)
@@ -97,13 +99,13 @@ Leaf(kind, i) == CASE kind = "ustr" -> UStr(i) [] kind = "uint" -> UInt(i) [] ki
                    [] kind = "st" -> StObj(i) [] kind = "er" -> ErObj(i) [] kind = "nil" -> TNil(i)
                    [] kind = "safestr" -> SafeStr(i) [] kind = "safeint" -> SafeInt(i)
                    [] kind = "bool" -> TBool(i) [] kind = "float" -> TFloat(i) [] kind = "svsf" -> SVSF(i)
-                   [] kind = "sstr" -> TSStr(i, P(i)) [] kind = "complex" -> TComplex(i)
+                   [] kind = "sstr" -> TSStr(i, P(i)) [] kind = "complex" -> TComplex(i) [] kind = "sfnum" -> SFNum(i)
                    [] kind = "rstr" -> TRStr(i, P(i)) [] kind = "gs" -> TObj(i, {"GS", "ST"}, <<>>, <<>>, P(i), <<>>)
                    [] kind = "rv" -> TRValue(i, UStr(i + 1)) [] kind = "rvsv" -> TRValue(i, SVStr(i + 1))
                    [] kind = "rvsafe" -> TRValue(i, SafeStr(i + 1)) [] kind = "rvslice" -> TRValue(i, TSlice(i + 1, <<UStr(i + 2), SVObj(i + 3)>>))
 LeafKinds  == {"ustr", "uint", "sv", "svstr", "reg", "sm", "st", "er", "nil", "safestr", "safeint", "bool", "float", "svsf",
-               "rv", "rvsv", "rvsafe", "rvslice", "rstr", "gs", "sstr", "complex"}
-QLeafKinds == {"ustr", "uint", "sv", "svstr", "reg", "nil", "safestr", "st", "svsf", "rvsv", "rstr", "gs", "sstr", "complex"}
+               "rv", "rvsv", "rvsafe", "rvslice", "rstr", "gs", "sstr", "complex", "sfnum"}
+QLeafKinds == {"ustr", "uint", "sv", "svstr", "reg", "nil", "safestr", "st", "svsf", "rvsv", "rstr", "gs", "sstr", "complex", "sfnum"}
 
 \* container shapes around two leaves a (ids 10..) and b (ids 20..); container ids 30..
 Shape(sh, a, b) ==
@@ -265,6 +267,9 @@ ErrOperand(kind, i) ==
     [] kind = "erfm"   -> TObj(i, {"ER", "FM"}, <<>>, <<SWrite(P(i + 5))>>, P(i), <<>>)
     [] kind = "ersf"   -> TObj(i, {"ER", "SF"}, <<SSafeString(P(600 + i)), SUnsafeString(P(700 + i))>>, <<>>, P(i), <<>>)
     [] kind = "ersm"   -> TObj(i, {"ER", "SM"}, <<>>, <<>>, P(i), <<>>)
+    \* a SafeFormatter (not an error) that itself prints an error with %w through the printer it was given: the nested
+    \* printer does not wrap errors, so that %w is a bad verb whatever the caller is doing
+    [] kind = "sfw"    -> TObj(i, {"SF"}, <<SSafeString(<<A>>), SPrintf(Fw, <<ErObj(i + 3)>>)>>, <<>>, <<>>, <<>>)
     [] kind = "safe"   -> TSafe(i, ErObj(i + 1))
     [] kind = "unsafe" -> TUnsafe(i, ErObj(i + 1))
     [] kind = "ernil"  -> TObj(i, {"ER", "NILP"}, <<>>, <<>>, <<>>, <<>>)
@@ -274,8 +279,8 @@ ErrOperand(kind, i) ==
     [] kind = "st"     -> StObj(i)
     [] kind = "erpan"  -> TObj(i, {"ER"}, <<>>, <<>>, <<>>, <<TStr(i + 1, P(i + 1))>>)
     [] kind = "struct" -> TStruct(i, <<UInt(i + 1), UStr(i + 2)>>, <<FALSE, TRUE>>)
-ErrKinds  == {"er", "erfm", "ersf", "ersm", "safe", "unsafe", "ernil", "nil", "int", "str", "st", "erpan", "struct"}
-QErrKinds == {"er", "erfm", "ersf", "ersm", "safe", "unsafe", "nil", "int", "str", "st", "struct"}
+ErrKinds  == {"er", "erfm", "ersf", "ersm", "sfw", "safe", "unsafe", "ernil", "nil", "int", "str", "st", "erpan", "struct"}
+QErrKinds == {"er", "erfm", "ersf", "ersm", "sfw", "ernil", "safe", "unsafe", "nil", "int", "str", "st", "struct"}
 ErrRoots == LET ks == IF Slice = "errorf" THEN ErrKinds ELSE QErrKinds IN
             {<<>>} \cup {<<ErrOperand(k1, 10)>> : k1 \in ks} \cup {<<ErrOperand(k1, 10), ErrOperand(k2, 20)>> : k1 \in ks, k2 \in ks}
 \* (objects are named ints in the harness: '*' would read their handle as a width; kept out of star formats)
